@@ -4,12 +4,134 @@
 #include <alpaqa/problem/box-constr-problem.hpp>
 #include <alpaqa/problem/unconstr-problem.hpp>
 #include <alpaqa/functions/indicator-box.hpp>
+// SHIM (finding C15-L1NormComplex-prox-does-not-compile): `L1NormComplex::prox` calls
+// `norm_1(out)` / `norm_1(out.cwiseProduct(λ))` on expressions whose column count is dynamic, but
+// `vec_util::norm_1` requires `ColsAtCompileTime == 1`, so neither instantiation of the shipped
+// class compiles (checks/c15.py probes that separately with harness/c15_probe_cplx.cpp and
+// reports it).  To still run the rest of the shipped code (the soft_thres lambdas, the dispatch,
+// the reinterpreting overload) this overload for non-column expressions is declared *before*
+// l1-norm.hpp, where `using vec_util::norm_1;` picks it up.  It is what the real-valued `L1Norm`
+// does (`.reshaped()`); it does not participate once the header passes column expressions.
+namespace alpaqa::vec_util {
+template <class Derived>
+    requires(Derived::ColsAtCompileTime != 1)
+auto norm_1(const Eigen::MatrixBase<Derived> &v) {
+    return v.reshaped().template lpNorm<1>();
+}
+} // namespace alpaqa::vec_util
 #include <alpaqa/functions/l1-norm.hpp>
 #include <alpaqa/functions/prox.hpp>
+#include <algorithm>
+#include <sys/wait.h>
+#include <unistd.h>
+#include <alpaqa/functions/nuclear-norm.hpp>
 
 USING_ALPAQA_CONFIG(alpaqa::DefaultConfig);
 using Problem = alpaqa::BoxConstrProblem<config_t>;
 using Box     = alpaqa::Box<config_t>;
+using cmat    = config_t::cmat;
+
+// L1NormComplex through both overloads: the prox customisation point (real vector of (re, im)
+// pairs, reinterpreted) and the complex overload called directly.
+template <class F>
+static void run_cl1(F &f, const vec &in, real_t γ) {
+    length_t n = in.size() / 2;
+    vec out1   = vec::Constant(in.size(), std::nan(""));
+    real_t h1  = alpaqa::prox(f, in, out1, γ);
+    cmat cin(n, 1), cout = cmat::Constant(n, 1, cplx_t{std::nan(""), std::nan("")});
+    for (length_t i = 0; i < n; ++i)
+        cin(i, 0) = cplx_t{in(2 * i), in(2 * i + 1)};
+    real_t h2 = f.prox(crcmat{cin}, rcmat{cout}, γ);
+    vec out2(2 * n);
+    for (length_t i = 0; i < n; ++i) {
+        out2(2 * i)     = cout(i, 0).real();
+        out2(2 * i + 1) = cout(i, 0).imag();
+    }
+    std::cout << vp::fmtv(out1) << ' ' << vp::fmtv(out2) << " # " << vp::f2h(h1) << ' '
+              << vp::f2h(h2) << '\n';
+}
+
+// Run `f` in a forked child so that a crash of the real code is an output line, not the end of
+// the whole run.
+template <class F>
+static std::string in_child(F &&f) {
+    std::cout.flush();
+    int fd[2];
+    if (pipe(fd) != 0)
+        return "pipe-failed";
+    pid_t pid = fork();
+    if (pid == 0) {
+        close(fd[0]);
+        std::string s;
+        try {
+            s = f();
+        } catch (std::exception &e) {
+            s = "exception";
+        }
+        size_t off = 0;
+        while (off < s.size()) {
+            ssize_t k = write(fd[1], s.data() + off, s.size() - off);
+            if (k <= 0)
+                break;
+            off += size_t(k);
+        }
+        _exit(0);
+    }
+    close(fd[1]);
+    std::string s;
+    char buf[4096];
+    ssize_t k;
+    while ((k = read(fd[0], buf, sizeof buf)) > 0)
+        s.append(buf, size_t(k));
+    close(fd[0]);
+    int status = 0;
+    waitpid(pid, &status, 0);
+    if (!WIFEXITED(status) || WEXITSTATUS(status) != 0)
+        return "crash " + std::to_string(WIFSIGNALED(status) ? WTERMSIG(status) : -1);
+    return s;
+}
+
+template <class M>
+static std::string fmtm(const M &m) { // column-major
+    std::string s = std::to_string(m.size());
+    for (Eigen::Index j = 0; j < m.cols(); ++j)
+        for (Eigen::Index i = 0; i < m.rows(); ++i) {
+            s += ' ';
+            s += vp::f2h(m(i, j));
+        }
+    return s;
+}
+
+// NuclearNorm::prox. Output: `Z value out` for the λ == 0 early exit, otherwise
+// `S sv value out # uv σ U V`: thresholded singular values (member `singular_values`), returned
+// value, output matrix, and after `#` the SVD the real code computed (fed to the model as the
+// oracle's answer): uv = 1 iff the decomposition object holds U and V, σ, U, V (column-major).
+static std::string nuc_op(index_t mode, real_t λ, real_t γ, length_t r, length_t c, const vec &a) {
+    mat A   = a.reshaped(r, c);
+    mat out = mat::Constant(r, c, std::nan(""));
+    real_t value;
+    auto report = [&](auto &f) -> std::string {
+        if (λ == 0)
+            return "Z " + vp::f2h(value) + ' ' + fmtm(out);
+        bool uv = f.svd.computeU() && f.svd.computeV();
+        std::string s = "S " + vp::fmtv(f.singular_values) + ' ' + vp::f2h(value) + ' ' + fmtm(out) +
+                        " # " + (uv ? "1 " : "0 ") + vp::fmtv(f.svd.singularValues());
+        if (uv)
+            s += ' ' + fmtm(f.svd.matrixU()) + ' ' + fmtm(f.svd.matrixV());
+        return s;
+    };
+    if (mode == 0) { // construct without pre-allocation, matrix in / matrix out
+        alpaqa::functions::NuclearNorm<config_t> f{λ};
+        value = alpaqa::prox(f, A, out, γ);
+        return report(f);
+    } else { // construct with pre-allocation, flattened in / out (reshaped by the real code)
+        alpaqa::functions::NuclearNorm<config_t> f{λ, r, c};
+        vec flat_out = vec::Constant(r * c, std::nan(""));
+        value        = alpaqa::prox(f, a, flat_out, γ);
+        out          = flat_out.reshaped(r, c);
+        return report(f);
+    }
+}
 
 int main() {
     std::string line;
@@ -70,6 +192,24 @@ int main() {
                 vec out(in.size());
                 real_t h = alpaqa::prox(f, in, out, γ);
                 std::cout << vp::f2h(h) << ' ' << vp::fmtv(out) << '\n';
+            } else if (op == "cl1s") {
+                real_t λ = t.flt(), γ = t.flt();
+                vec in = t.vec();
+                alpaqa::functions::L1NormComplex<config_t> f{λ};
+                run_cl1(f, in, γ);
+            } else if (op == "cl1v") {
+                vec λ    = t.vec();
+                real_t γ = t.flt();
+                vec in   = t.vec();
+                alpaqa::functions::L1NormComplex<config_t, vec> f{λ};
+                run_cl1(f, in, γ);
+            } else if (op == "nuc") {
+                // nuc <mode: 0 dynamic-size ctor, 1 fixed-size ctor> λ γ rows cols <col-major entries>
+                index_t mode = t.nat();
+                real_t λ = t.flt(), γ = t.flt();
+                length_t r = t.nat(), c = t.nat();
+                vec a = t.vec();
+                std::cout << in_child([&] { return nuc_op(mode, λ, γ, r, c, a); }) << '\n';
             } else if (op == "unc") {
                 real_t γ = t.flt();
                 vec x = t.vec(), g = t.vec();
